@@ -36,7 +36,7 @@ def c10Model (g : Graph) (pointers : List (Str × List Str)) (e : Entry) (vars r
     C10Model :=
   let vs : Vars := match vars with | .obj fs => fs | _ => []
   match normalize e.op.norm resp (e.concreteType, rootId) vs with
-  | .throw msg => ⟨"norm:throw:" ++ strHex msg, "", "", "", ""⟩
+  | .throw msg => ⟨"norm:throw:" ++ strHex msg, "", "", "", "", ""⟩
   | .ok store =>
     let c : Ctx := ⟨g, store, pointers⟩
     let (res, cm) := readEntry c e vs (readRoot.getD (e.concreteType, rootId))
@@ -46,9 +46,9 @@ def c10Model (g : Graph) (pointers : List (Str × List Str)) (e : Entry) (vars r
     match res with
     | .ok d =>
       let sel := (collectSelected [] d).map fun (t, s) => strHex t ++ "=" ++ strHex (selectedText s)
-      ⟨"norm:ok", "out:ok", cmText, dump, if sel.isEmpty then "-" else ",".intercalate sel⟩
+      ⟨"norm:ok", "out:ok", cmText, dump, if sel.isEmpty then "-" else ",".intercalate sel, ""⟩
     | .missing why tag => ⟨"norm:ok", "out:missing:" ++ strHex why, cmText, dump, "-", stringOfStr tag⟩
-    | .throw msg => ⟨"norm:ok", "out:throw:" ++ strHex msg, cmText, dump, "-"⟩
+    | .throw msg => ⟨"norm:ok", "out:throw:" ++ strHex msg, cmText, dump, "-", ""⟩
 
 def normHasAbstractFrag (isAbstract : Str → Bool) : Nat → List NNode → Bool
   | 0, _ => false
